@@ -10,17 +10,28 @@ import GorumsV.Model.ConnMgr
   C12: after Close, when nothing can move any more, both goroutines have exited (outside the
        wedge shapes); the exiting sender drains the send buffer, so no request is left in it.
   C08: the router lock a caller needs is held for good only in the back-pressure shape.
+  C07 / C18: requests written to a stream that has died are never forgotten: while any of them is
+       unanswered a cancellation of the pending requests is on its way (`lost_is_cancelled`), and a
+       receiver parked on a live idle stream owes nothing from older streams
+       (`parked_means_nothing_lost`); the pinned code, in which `reconnect` replaced a stream
+       without answering the requests written to it, reaches a quiet state with a request lost for
+       good (`pinned_leak_reachable`: the defect repaired by fix 532c824).
+  The repair adds a third way into the back-pressure shape: the `cancelPendingMsgs` inside `reconnect` can block
+  on a full reply channel while the goroutine holds the write lock (`rcBlocked`, for either goroutine); the list
+  of wedges (`wedge_shapes`) is unchanged: W1, or W2 in one of its three locations.
 -/
 namespace GorumsV.C09
 open GorumsV.ConnMgr
 
-/-- lock ownership matches the program counters; answers are in flight only on a live, established
-    stream; the receiver exists iff a stream was ever created -/
+/-- lock ownership matches the program counters (a goroutine blocked in the `cancelPendingMsgs` of `reconnect`
+    keeps the write lock); answers are in flight only on a live, established stream; the receiver exists iff a
+    stream was ever created; requests written to a dead stream are unanswered only while the current stream is
+    dead (`lostDead`, with its auxiliaries `dialFresh`, `lostEstablished`) -/
 structure Inv (s : St) : Prop where
   readS : s.readS = true ↔ s.spc = .sending
   readR : s.readR = true ↔ s.rpc = .reading
-  writerS : s.writer = some .sender ↔ s.spc = .rcHeld
-  writerR : s.writer = some .receiver ↔ s.rpc = .rcHeld
+  writerS : s.writer = some .sender ↔ (s.spc = .rcHeld ∨ s.spc = .rcBlocked)
+  writerR : s.writer = some .receiver ↔ (s.rpc = .rcHeld ∨ s.rpc = .rcBlocked)
   inflightAlive : s.inflight > 0 → s.alive = true
   aliveEstablished : s.alive = true → s.established = true
   receiverExists : s.established = true ↔ s.rpc ≠ .absent
@@ -35,6 +46,20 @@ structure Inv (s : St) : Prop where
   exitedDrained : s.spc = .exited → s.queued = 0
   /-- added: the receiver runs its final cancelPendingMsgs only after Close -/
   cancelExitClosed : s.rpc = .cancelExit → s.closed = true
+  /-- added (model of the repair "whoever replaces a broken stream answers the requests written to it"): the
+      sender dials only while no stream was ever created (so the dial never replaces a stream) -/
+  dialFresh : s.spc = .dial → s.established = false
+  /-- added: before the first stream nothing was written, so nothing is lost -/
+  lostEstablished : s.lost > 0 → s.established = true
+  /-- added: the main clause: requests written to a dead stream are unanswered only while the current stream is
+      dead — every step that makes a stream current is the first dial (nothing written yet) or a replacement
+      in `reconnect`, which answers them first -/
+  lostDead : s.lost > 0 → s.alive = false
+  /-- added: the flag `streamBroken` is clear while the current stream works -/
+  aliveUnbroken : s.alive = true → s.broken = false
+  /-- added: a goroutine blocks in the `cancelPendingMsgs` of `reconnect` only with the flag set and the reply
+      channel of a streaming router full; both stay so while it is blocked -/
+  rcBlockedBroken : (s.spc = .rcBlocked ∨ s.rpc = .rcBlocked) → s.broken = true ∧ s.fullStream = true
 
 theorem inv_init : Inv init := by
   constructor <;> simp [init]
@@ -55,35 +80,35 @@ theorem original_fields_not_inductive :
   decide
 
 theorem inv_step_sender (s s' : St) (l : Label) (h : Inv s) (hs : step s l = some s')
-    (hl : l = .sPop ∨ l = .sEval ∨ l = .sDial ∨ l = .sConnB ∨ l = .sRcEnter ∨ l = .sRcLock ∨ l = .sRcDo ∨
+    (hl : l = .sPop ∨ l = .sEval ∨ l = .sDial ∨ l = .sConnB ∨ l = .sRcEnter ∨ l = .sRcLock ∨ l = .sRcDo ∨ l = .sRcDoBlock ∨
       l = .sRcWake ∨ l = .sBrokenChk ∨ l = .sRLock ∨ l = .sSendOk ∨ l = .sSendFail ∨ l = .sExit) : Inv s' := by
-  obtain ⟨h1, h2, h3, h4, h5, h6, h7, h8, h9, h10, h11, h12, h13⟩ := h
-  rcases hl with rfl | rfl | rfl | rfl | rfl | rfl | rfl | rfl | rfl | rfl | rfl | rfl | rfl <;>
+  obtain ⟨h1, h2, h3, h4, h5, h6, h7, h8, h9, h10, h11, h12, h13, h14, h15, h16, h17, h18⟩ := h
+  rcases hl with rfl | rfl | rfl | rfl | rfl | rfl | rfl | rfl | rfl | rfl | rfl | rfl | rfl | rfl <;>
     simp only [step] at hs <;> (repeat' split at hs) <;> cases hs <;> constructor <;>
-    first | assumption | grind [newStream, lockFree, writerPending]
+    first | assumption | grind [newStream, killStream, replaceStream, lockFree, writerPending]
 
 theorem inv_step_receiver (s s' : St) (l : Label) (h : Inv s) (hs : step s l = some s')
     (hl : l = .rRLock ∨ l = .rRecvMsg ∨ l = .rRecvErr ∨ l = .rDeliver ∨ l = .rDeliverBlock ∨ l = .rCancel ∨
-      l = .rCancelBlock ∨ l = .rRcLock ∨ l = .rRcDo ∨ l = .rRcWake ∨ l = .rExitChk ∨ l = .rCancelExit ∨
+      l = .rCancelBlock ∨ l = .rRcLock ∨ l = .rRcDo ∨ l = .rRcDoBlock ∨ l = .rRcWake ∨ l = .rExitChk ∨ l = .rCancelExit ∨
       l = .rCancelExitBlock) : Inv s' := by
-  obtain ⟨h1, h2, h3, h4, h5, h6, h7, h8, h9, h10, h11, h12, h13⟩ := h
-  rcases hl with rfl | rfl | rfl | rfl | rfl | rfl | rfl | rfl | rfl | rfl | rfl | rfl | rfl <;>
+  obtain ⟨h1, h2, h3, h4, h5, h6, h7, h8, h9, h10, h11, h12, h13, h14, h15, h16, h17, h18⟩ := h
+  rcases hl with rfl | rfl | rfl | rfl | rfl | rfl | rfl | rfl | rfl | rfl | rfl | rfl | rfl | rfl <;>
     simp only [step] at hs <;> (repeat' split at hs) <;> cases hs <;> constructor <;>
-    first | assumption | grind [newStream, lockFree, writerPending]
+    first | assumption | grind [newStream, killStream, replaceStream, lockFree, writerPending]
 
 theorem inv_step_env (s s' : St) (l : Label) (h : Inv s) (hs : step s l = some s')
     (hl : l = .eRequest ∨ l = .eStreamFail ∨ l = .ePeerDown ∨ l = .ePeerUp ∨ l = .eFullStream ∨
       l = .eDeleteRouter ∨ l = .eClose) : Inv s' := by
-  obtain ⟨h1, h2, h3, h4, h5, h6, h7, h8, h9, h10, h11, h12, h13⟩ := h
+  obtain ⟨h1, h2, h3, h4, h5, h6, h7, h8, h9, h10, h11, h12, h13, h14, h15, h16, h17, h18⟩ := h
   rcases hl with rfl | rfl | rfl | rfl | rfl | rfl | rfl <;>
-    simp only [step] at hs <;> (repeat' split at hs) <;> cases hs <;> constructor <;>
-    first | assumption | grind [newStream, lockFree, writerPending]
+    simp only [step, killStream] at hs <;> (repeat' split at hs) <;> cases hs <;> constructor <;>
+    first | assumption | grind [newStream, killStream, replaceStream, lockFree, writerPending]
 
 theorem inv_step (s s' : St) (l : Label) (h : Inv s) (hs : step s l = some s') : Inv s' := by
   cases l with
-  | sPop | sEval | sDial | sConnB | sRcEnter | sRcLock | sRcDo | sRcWake | sBrokenChk | sRLock | sSendOk
+  | sPop | sEval | sDial | sConnB | sRcEnter | sRcLock | sRcDo | sRcDoBlock | sRcWake | sBrokenChk | sRLock | sSendOk
   | sSendFail | sExit => exact inv_step_sender s s' _ h hs (by simp)
-  | rRLock | rRecvMsg | rRecvErr | rDeliver | rDeliverBlock | rCancel | rCancelBlock | rRcLock | rRcDo | rRcWake
+  | rRLock | rRecvMsg | rRecvErr | rDeliver | rDeliverBlock | rCancel | rCancelBlock | rRcLock | rRcDo | rRcDoBlock | rRcWake
   | rExitChk | rCancelExit | rCancelExitBlock => exact inv_step_receiver s s' _ h hs (by simp)
   | eRequest | eStreamFail | ePeerDown | ePeerUp | eFullStream | eDeleteRouter | eClose =>
     exact inv_step_env s s' _ h hs (by simp)
@@ -116,7 +141,8 @@ theorem not_stuck_of_step (s : St) (l : Label) (hl : l ∈ libLabels ++ benignLa
   | false => rfl
   | true => rw [stuck_none s hst l hl] at h; cases h
 
-/-- in these sender locations the sender's next statement is always enabled -/
+/-- in these sender locations the sender's next statement is always enabled (with the write lock held in
+    `reconnect` it either goes on or blocks in `cancelPendingMsgs`) -/
 theorem sender_moves (s : St)
     (hspc : s.spc = .eval ∨ s.spc = .dial ∨ s.spc = .connB ∨ s.spc = .rcPre ∨ s.spc = .rcHeld ∨
       s.spc = .rcSleep ∨ s.spc = .brokenChk ∨ s.spc = .sending) : Stuck s = false := by
@@ -125,7 +151,9 @@ theorem sender_moves (s : St)
   · apply not_stuck_of_step s .sDial (by decide); simp only [step, h]; (repeat' split) <;> simp_all
   · apply not_stuck_of_step s .sConnB (by decide); simp only [step, h]; (repeat' split) <;> simp_all
   · apply not_stuck_of_step s .sRcEnter (by decide); simp only [step, h]; (repeat' split) <;> simp_all
-  · apply not_stuck_of_step s .sRcDo (by decide); simp only [step, h]; (repeat' split) <;> simp_all
+  · by_cases hb : s.broken = true ∧ s.fullStream = true
+    · apply not_stuck_of_step s .sRcDoBlock (by decide); simp [step, h, hb.1, hb.2]
+    · apply not_stuck_of_step s .sRcDo (by decide); simp only [step, h]; (repeat' split) <;> simp_all
   · apply not_stuck_of_step s .sRcWake (by decide); simp only [step, h]; (repeat' split) <;> simp_all
   · apply not_stuck_of_step s .sBrokenChk (by decide); simp only [step, h]; (repeat' split) <;> simp_all
   · cases ha : s.alive
@@ -141,22 +169,32 @@ theorem receiver_moves (s : St)
   · cases hf : s.fullStream
     · apply not_stuck_of_step s .rCancel (by decide); simp [step, h, hf]
     · apply not_stuck_of_step s .rCancelBlock (by decide); simp [step, h, hf]
-  · apply not_stuck_of_step s .rRcDo (by decide); simp only [step, h]; (repeat' split) <;> simp_all
+  · by_cases hb : s.broken = true ∧ s.fullStream = true
+    · apply not_stuck_of_step s .rRcDoBlock (by decide); simp [step, h, hb.1, hb.2]
+    · apply not_stuck_of_step s .rRcDo (by decide); simp only [step, h]; (repeat' split) <;> simp_all
   · apply not_stuck_of_step s .rRcWake (by decide); simp only [step, h]; (repeat' split) <;> simp_all
   · apply not_stuck_of_step s .rExitChk (by decide); simp [step, h]
   · cases hf : s.fullStream
     · apply not_stuck_of_step s .rCancelExit (by decide); simp [step, h, hf]
     · apply not_stuck_of_step s .rCancelExitBlock (by decide); simp [step, h, hf]
 
+theorem writer_none_of_pcs (s : St) (h : Inv s) (h3 : s.spc ≠ .rcHeld) (h3' : s.spc ≠ .rcBlocked)
+    (h4 : s.rpc ≠ .rcHeld) (h4' : s.rpc ≠ .rcBlocked) : s.writer = none := by
+  cases hw : s.writer with
+  | none => rfl
+  | some w => cases w
+              · rcases h.writerS.mp hw with h' | h'
+                · exact absurd h' h3
+                · exact absurd h' h3'
+              · rcases h.writerR.mp hw with h' | h'
+                · exact absurd h' h4
+                · exact absurd h' h4'
+
 /-- under `Inv` the lock is free unless the program counters say otherwise -/
 theorem lockFree_of_pcs (s : St) (h : Inv s) (h1 : s.spc ≠ .sending) (h2 : s.rpc ≠ .reading)
-    (h3 : s.spc ≠ .rcHeld) (h4 : s.rpc ≠ .rcHeld) : lockFree s = true := by
-  have hw : s.writer = none := by
-    cases hw : s.writer with
-    | none => rfl
-    | some w => cases w
-                · exact absurd (h.writerS.mp hw) h3
-                · exact absurd (h.writerR.mp hw) h4
+    (h3 : s.spc ≠ .rcHeld) (h3' : s.spc ≠ .rcBlocked) (h4 : s.rpc ≠ .rcHeld) (h4' : s.rpc ≠ .rcBlocked) :
+    lockFree s = true := by
+  have hw : s.writer = none := writer_none_of_pcs s h h3 h3' h4 h4'
   have hS : s.readS = false := by
     cases hS : s.readS with
     | false => rfl
@@ -167,19 +205,15 @@ theorem lockFree_of_pcs (s : St) (h : Inv s) (h1 : s.spc ≠ .sending) (h2 : s.r
     | true => exact absurd (h.readR.mp hR) h2
   simp [lockFree, hw, hS, hR]
 
-theorem writer_none_of_pcs (s : St) (h : Inv s) (h3 : s.spc ≠ .rcHeld) (h4 : s.rpc ≠ .rcHeld) :
-    s.writer = none := by
-  cases hw : s.writer with
-  | none => rfl
-  | some w => cases w
-              · exact absurd (h.writerS.mp hw) h3
-              · exact absurd (h.writerR.mp hw) h4
-
-/-- a stuck state (under `Inv`): what remains possible for the receiver -/
+/-- a stuck state (under `Inv`): what remains possible for the receiver (the last case: the sender is blocked in
+    the `cancelPendingMsgs` of `reconnect(1)` holding the write lock — then wherever the receiver is, it may be
+    unable to move) -/
 theorem stuck_receiver (s : St) (h : Inv s) (hs : Stuck s = true) :
-    s.rpc = .absent ∨ s.rpc = .exited ∨ s.rpc = .blockedSend ∨
+    s.rpc = .absent ∨ s.rpc = .exited ∨ s.rpc = .blockedSend ∨ s.rpc = .rcBlocked ∨
     (s.rpc = .reading ∧ s.alive = true ∧ s.inflight = 0) ∨
-    (s.rpc = .top ∧ s.spc = .rcWant) := by
+    (s.rpc = .top ∧ s.spc = .rcWant) ∨ s.spc = .rcBlocked := by
+  by_cases hSb : s.spc = .rcBlocked
+  · simp [hSb]
   have hS : s.spc ≠ .rcHeld ∧ s.spc ≠ .sending := by
     constructor <;> intro hc <;> have := sender_moves s (by simp [hc]) <;> simp [hs] at this
   have hn := stuck_none s hs
@@ -187,6 +221,7 @@ theorem stuck_receiver (s : St) (h : Inv s) (hs : Stuck s = true) :
   | absent => simp
   | exited => simp
   | blockedSend => simp
+  | rcBlocked => simp
   | deliver | cancel | rcHeld | rcSleep | exitChk | cancelExit => have := receiver_moves s (by simp [hrpc]); simp [hs] at this
   | reading =>
     have h1 := hn .rRecvMsg (by decide)
@@ -196,23 +231,30 @@ theorem stuck_receiver (s : St) (h : Inv s) (hs : Stuck s = true) :
     simp [h1, h2]
   | top =>
     have h1 := hn .rRLock (by decide)
-    have hw := writer_none_of_pcs s h hS.1 (by simp [hrpc])
+    have hw := writer_none_of_pcs s h hS.1 hSb (by simp [hrpc]) (by simp [hrpc])
     simp [step, hrpc, hw, writerPending] at h1
     simp [h1]
   | rcWant =>
     have h1 := hn .rRcLock (by decide)
-    have hl := lockFree_of_pcs s h hS.2 (by simp [hrpc]) hS.1 (by simp [hrpc])
+    have hl := lockFree_of_pcs s h hS.2 (by simp [hrpc]) hS.1 hSb (by simp [hrpc]) (by simp [hrpc])
     simp [step, hrpc, hl] at h1
 
-/-- a stuck state (under `Inv`): what remains possible for the sender -/
+/-- a stuck state (under `Inv`): what remains possible for the sender (the last two cases: a goroutine is blocked
+    in the `cancelPendingMsgs` of `reconnect` holding the write lock) -/
 theorem stuck_sender (s : St) (h : Inv s) (hs : Stuck s = true) :
     s.spc = .exited ∨ (s.spc = .idle ∧ s.queued = 0 ∧ s.closed = false) ∨
-    (s.spc = .rcWant ∧ s.rpc = .reading) := by
+    (s.spc = .rcWant ∧ s.rpc = .reading) ∨ s.spc = .rcBlocked ∨ s.rpc = .rcBlocked := by
+  by_cases hSb : s.spc = .rcBlocked
+  · simp [hSb]
+  by_cases hRb : s.rpc = .rcBlocked
+  · simp [hRb]
   have hR : s.rpc ≠ .rcHeld ∧ s.rpc ≠ .rcWant := by
-    constructor <;> intro hc <;> rcases stuck_receiver s h hs with h' | h' | h' | h' | h' <;> simp [hc] at h'
+    constructor <;> intro hc <;> rcases stuck_receiver s h hs with h' | h' | h' | h' | h' | h' | h' <;>
+      first | exact absurd h' hSb | simp [hc] at h'
   have hn := stuck_none s hs
   cases hspc : s.spc with
   | exited => simp
+  | rcBlocked => exact absurd hspc hSb
   | eval | dial | connB | rcPre | rcHeld | rcSleep | brokenChk | sending =>
     have := sender_moves s (by simp [hspc]); simp [hs] at this
   | idle =>
@@ -225,11 +267,11 @@ theorem stuck_sender (s : St) (h : Inv s) (hs : Stuck s = true) :
     have h1 := hn .sRcLock (by decide)
     by_cases hr : s.rpc = .reading
     · simp [hr]
-    · have hl := lockFree_of_pcs s h (by simp [hspc]) hr (by simp [hspc]) hR.1
+    · have hl := lockFree_of_pcs s h (by simp [hspc]) hr (by simp [hspc]) (by simp [hspc]) hR.1 hRb
       simp [step, hspc, hl] at h1
   | wantR =>
     have h1 := hn .sRLock (by decide)
-    have hw := writer_none_of_pcs s h (by simp [hspc]) hR.1
+    have hw := writer_none_of_pcs s h (by simp [hspc]) (by simp [hspc]) hR.1 hRb
     simp [step, hspc, hw, writerPending, hR.2] at h1
 
 /-- **C09, the complete list of wedges**: with a reachable peer and an open manager, a state in which
@@ -238,20 +280,30 @@ theorem stuck_sender (s : St) (h : Inv s) (hs : Stuck s = true) :
 theorem wedge_shapes_any_peer (s : St) (h : Reachable s) (hc : s.closed = false)
     (ho : owes s = true) (hs : Stuck s = true) : ShapeStaleBroken s = true ∨ ShapeBackpressure s = true := by
   have hi := inv_reachable s h
-  rcases stuck_sender s hi hs with h1 | ⟨h1, h2, _⟩ | ⟨h1, h2⟩
+  rcases stuck_sender s hi hs with h1 | ⟨h1, h2, _⟩ | ⟨h1, h2⟩ | h1 | h1
   · have := hi.exitedClosed.1 h1; simp [hc] at this
-  · have hinf : s.inflight > 0 := by simpa [owes, h1, h2] using ho
-    have ha := hi.inflightAlive hinf
-    have hne := hi.receiverExists.mp (hi.aliveEstablished ha)
-    rcases stuck_receiver s hi hs with h' | h' | h' | ⟨_, _, h'⟩ | ⟨_, h'⟩
-    · exact absurd h' hne
+  · have hinf : s.inflight > 0 ∨ s.lost > 0 := by simpa [owes, h1, h2] using ho
+    rcases stuck_receiver s hi hs with h' | h' | h' | h' | ⟨_, h3, h4⟩ | ⟨_, h'⟩ | h'
+    · -- no stream was ever created: nothing was written
+      have hne : s.established ≠ true := fun he => hi.receiverExists.mp he h'
+      rcases hinf with hinf | hinf
+      · exact absurd (hi.aliveEstablished (hi.inflightAlive hinf)) hne
+      · exact absurd (hi.lostEstablished hinf) hne
     · have := hi.exitedClosed.2 h'; simp [hc] at this
     · right; simp [ShapeBackpressure, h']
-    · omega
+    · right; simp [ShapeBackpressure, h']
+    · -- parked on a live idle stream: nothing is in flight and (`lostDead`) nothing is lost
+      rcases hinf with hinf | hinf
+      · omega
+      · have := hi.lostDead hinf; simp [h3] at this
     · simp [h1] at h'
-  · rcases stuck_receiver s hi hs with h' | h' | h' | ⟨_, h3, h4⟩ | ⟨h', _⟩ <;> try (simp [h2] at h'; done)
+    · simp [h1] at h'
+  · rcases stuck_receiver s hi hs with h' | h' | h' | h' | ⟨_, h3, h4⟩ | ⟨h', _⟩ | h' <;>
+      try (first | (simp [h2] at h'; done) | (simp [h1] at h'; done))
     left
     simp [ShapeStaleBroken, h1, h2, h3, h4, hi.readR.mpr h2]
+  · right; simp [ShapeBackpressure, h1]
+  · right; simp [ShapeBackpressure, h1]
 
 /-- the statement as asked for (`hp` turns out not to be needed: with the peer down the sender gives up after
     one retry and the receiver's back-off timer keeps firing, so nothing else wedges either) -/
@@ -264,12 +316,37 @@ theorem staleBroken_is_stuck (s : St) (_h : Inv s) (hw : ShapeStaleBroken s = tr
   simp only [ShapeStaleBroken, Bool.and_eq_true, beq_iff_eq] at hw
   obtain ⟨⟨⟨⟨h1, h2⟩, h3⟩, h4⟩, h5⟩ := hw
   simp [Stuck, libLabels, benignLabels, enabled, step, h1, h2, h3, h4, h5, lockFree]
-theorem backpressure_is_stuck_for_receiver (s : St) (hw : ShapeBackpressure s = true) :
-    ∀ l ∈ [Label.rRLock, .rRecvMsg, .rRecvErr, .rDeliver, .rDeliverBlock, .rCancel, .rCancelBlock, .rRcLock, .rRcDo, .rRcWake, .rExitChk,
-      .rCancelExit, .rCancelExitBlock],
+
+/-- a receiver blocked on a full reply channel (in `routeResponse` / `cancelPendingMsgs`, or in the
+    `cancelPendingMsgs` of `reconnect(-1)`) has no enabled statement -/
+theorem backpressure_is_stuck_for_receiver (s : St) (hw : s.rpc = .blockedSend ∨ s.rpc = .rcBlocked) :
+    ∀ l ∈ [Label.rRLock, .rRecvMsg, .rRecvErr, .rDeliver, .rDeliverBlock, .rCancel, .rCancelBlock, .rRcLock, .rRcDo, .rRcDoBlock,
+      .rRcWake, .rExitChk, .rCancelExit, .rCancelExitBlock],
       enabled s l = false := by
-  simp only [ShapeBackpressure, beq_iff_eq] at hw
+  rcases hw with hw | hw <;> simp [enabled, step, hw]
+
+/-- … and a sender blocked in the `cancelPendingMsgs` of `reconnect(1)` has none either -/
+theorem backpressure_is_stuck_for_sender (s : St) (hw : s.spc = .rcBlocked) :
+    ∀ l ∈ [Label.sPop, .sEval, .sDial, .sConnB, .sRcEnter, .sRcLock, .sRcDo, .sRcDoBlock, .sRcWake, .sBrokenChk, .sRLock,
+      .sSendOk, .sSendFail, .sExit],
+      enabled s l = false := by
   simp [enabled, step, hw]
+
+/-- in the back-pressure shape the blocked goroutine has no enabled statement, and what would unblock it (the
+    deletion of the full router) is disabled too -/
+theorem backpressure_is_stuck (s : St) (hw : ShapeBackpressure s = true) :
+    enabled s .eDeleteRouter = false ∧
+    ((∀ l ∈ [Label.rRLock, .rRecvMsg, .rRecvErr, .rDeliver, .rDeliverBlock, .rCancel, .rCancelBlock, .rRcLock, .rRcDo,
+        .rRcDoBlock, .rRcWake, .rExitChk, .rCancelExit, .rCancelExitBlock], enabled s l = false) ∨
+     (∀ l ∈ [Label.sPop, .sEval, .sDial, .sConnB, .sRcEnter, .sRcLock, .sRcDo, .sRcDoBlock, .sRcWake, .sBrokenChk, .sRLock,
+        .sSendOk, .sSendFail, .sExit], enabled s l = false)) := by
+  simp only [ShapeBackpressure, Bool.or_eq_true, beq_iff_eq] at hw
+  refine ⟨?_, ?_⟩
+  · rcases hw with (hw | hw) | hw <;> simp [enabled, step, hw]
+  · rcases hw with (hw | hw) | hw
+    · exact Or.inl (backpressure_is_stuck_for_receiver s (Or.inl hw))
+    · exact Or.inl (backpressure_is_stuck_for_receiver s (Or.inr hw))
+    · exact Or.inr (backpressure_is_stuck_for_sender s hw)
 
 /-- **W1 is reachable** (known finding stale-broken): the stream fails while the sender has a request;
     the sender reads the stale flag in connect(), the receiver re-creates the stream and parks in RecvMsg,
@@ -293,16 +370,74 @@ theorem backpressure_reachable :
     ∃ s, exec init traceBackpressure = some s ∧ ShapeBackpressure s = true ∧ s.peerUp = true ∧ s.closed = false := by
   refine ⟨_, rfl, ?_, ?_, ?_⟩ <;> decide
 
-/-- a step other than `eFullStream` keeps `fullStream = false ∧ rpc ≠ blockedSend` -/
-theorem no_full_step (s s' : St) (l : Label) (h : s.fullStream = false ∧ s.rpc ≠ .blockedSend)
-    (hs : step s l = some s') (hl : l ≠ .eFullStream) : s'.fullStream = false ∧ s'.rpc ≠ .blockedSend := by
-  obtain ⟨h1, h2⟩ := h
-  cases l <;> simp only [step] at hs <;> (repeat' split at hs) <;> cases hs <;>
-    first | exact absurd rfl hl | (simp_all [newStream] <;> done) | (simp only [newStream]; split <;> simp_all)
+/-! ### requests written to dead streams (C07 liveness half, C18) -/
 
-theorem no_full_exec (ls : List Label) (s s' : St) (h : s.fullStream = false ∧ s.rpc ≠ .blockedSend)
+/-- **no request is forgotten**: in every reachable state in which requests written to a dead stream are still
+    unanswered, a cancellation of the pending requests is on its way -/
+theorem lost_is_cancelled (s : St) (h : Reachable s) (hl : s.lost > 0) : CancelComing s = true := by
+  have := (inv_reachable s h).lostDead hl
+  simp [CancelComing, this]
+
+/-- … in fact the current stream is then dead (the strongest disjunct of `CancelComing`): every step that makes a
+    stream current is the first dial, before which nothing was written, or a replacement in `reconnect`, which
+    answers the requests written to older streams first -/
+theorem lost_means_dead (s : St) (h : Reachable s) (hl : s.lost > 0) : s.alive = false :=
+  (inv_reachable s h).lostDead hl
+
+/-- … in particular, when the receiver is parked in RecvMsg on a live idle stream nothing is lost -/
+theorem parked_means_nothing_lost (s : St) (h : Reachable s) (hp : Parked s = true) : s.lost = 0 := by
+  simp only [Parked, Bool.and_eq_true, beq_iff_eq] at hp
+  obtain ⟨⟨_, h2⟩, _⟩ := hp
+  cases hl : s.lost with
+  | zero => rfl
+  | succ n =>
+    have := lost_means_dead s h (by omega)
+    simp [h2] at this
+
+/-- whoever replaces a stream answers the requests written to older streams first: right after a step of
+    `reconnect` that creates a stream nothing is lost and nothing is in flight -/
+theorem replacement_answers_lost (s s' : St) (l : Label) (hl : l = .sRcDo ∨ l = .rRcDo) (hs : step s l = some s')
+    (hb : s.broken = true) : s'.lost = 0 := by
+  rcases hl with rfl | rfl <;> simp only [step, hb] at hs <;> (repeat' split at hs) <;> cases hs <;>
+    simp_all [replaceStream, newStream]
+
+/-- **the pinned code leaks**: when `reconnect` does not answer the requests written to the stream it replaces,
+    a request written to the stream the sender replaces is lost for good: the receiver, which was between
+    two reads when the stream died, parks on the new stream; nothing is queued, the sender is idle, the
+    peer is up -/
+def traceLeak : List Label :=
+  [.eRequest, .sPop, .sEval, .sDial, .sConnB, .sBrokenChk, .sRLock, .sSendOk,        -- request 1 is written to stream 1
+   .eRequest, .sPop, .sEval, .sBrokenChk, .sRLock, .sSendOk,                          -- request 2 too
+   .rRLock, .rRecvMsg, .rDeliver,                                                    -- the receiver reads the answer to one of them …
+   .eStreamFail,                                                                     -- … and is between two reads when the stream dies (a watcher cancels it)
+   .eRequest, .sPop, .sEval, .sBrokenChk, .sRLock, .sSendFail,                        -- the sender notices (SendMsg fails), marks the stream broken
+   .eRequest, .sPop, .sEval, .sConnB, .sRcEnter, .sRcLock, .sRcDo, .sBrokenChk, .sRLock, .sSendOk,   -- and replaces it in reconnect(1)
+   .rExitChk, .rRLock, .rRecvMsg, .rDeliver, .rExitChk, .rRLock]                       -- the receiver goes on with the new stream
+
+theorem pinned_leak_reachable :
+    ∃ s, execPinned init traceLeak = some s ∧ s.lost = 1 ∧ Parked s = true ∧ s.spc = .idle ∧ s.queued = 0 ∧
+      s.peerUp = true ∧ s.closed = false ∧ CancelComing s = false := by
+  refine ⟨_, rfl, ?_, ?_, ?_, ?_, ?_, ?_, ?_⟩ <;> decide
+
+/-- the same schedule on the repaired code ends with nothing lost -/
+theorem leak_trace_repaired :
+    ∃ s, exec init traceLeak = some s ∧ s.lost = 0 ∧ Parked s = true := by
+  refine ⟨_, rfl, ?_, ?_⟩ <;> decide
+
+/-- a step other than `eFullStream` keeps `fullStream = false` and all three blocked locations unoccupied -/
+theorem no_full_step (s s' : St) (l : Label)
+    (h : s.fullStream = false ∧ s.rpc ≠ .blockedSend ∧ s.rpc ≠ .rcBlocked ∧ s.spc ≠ .rcBlocked)
+    (hs : step s l = some s') (hl : l ≠ .eFullStream) :
+    s'.fullStream = false ∧ s'.rpc ≠ .blockedSend ∧ s'.rpc ≠ .rcBlocked ∧ s'.spc ≠ .rcBlocked := by
+  obtain ⟨h1, h2, h3, h4⟩ := h
+  cases l <;> simp only [step, killStream] at hs <;> (repeat' split at hs) <;> cases hs <;>
+    first | exact absurd rfl hl | (simp_all [newStream, replaceStream] <;> done) |
+      (simp only [newStream, replaceStream]; split <;> simp_all)
+
+theorem no_full_exec (ls : List Label) (s s' : St)
+    (h : s.fullStream = false ∧ s.rpc ≠ .blockedSend ∧ s.rpc ≠ .rcBlocked ∧ s.spc ≠ .rcBlocked)
     (hs : exec s ls = some s') (hnf : Label.eFullStream ∉ ls) :
-    s'.fullStream = false ∧ s'.rpc ≠ .blockedSend := by
+    s'.fullStream = false ∧ s'.rpc ≠ .blockedSend ∧ s'.rpc ≠ .rcBlocked ∧ s'.spc ≠ .rcBlocked := by
   induction ls generalizing s with
   | nil => simp only [exec, Option.some.injEq] at hs; exact hs ▸ h
   | cons l ls ih =>
@@ -323,7 +458,7 @@ theorem no_backpressure_without_full_stream (ls : List Label) (s : St) (h : exec
 /-- **C08**: a caller's registration and a call's deferred router deletion need `responseMut`; it is
     unavailable for good only in the back-pressure shape: in every other state the deletion step is enabled -/
 theorem deleteRouter_enabled_iff (s : St) : enabled s .eDeleteRouter = true ↔ ShapeBackpressure s = false := by
-  cases hr : s.rpc <;> simp [enabled, step, ShapeBackpressure, hr]
+  cases hr : s.rpc <;> cases hp : s.spc <;> simp [enabled, step, ShapeBackpressure, hr, hp]
 
 /-- **C10, connect is retried for every request**: a request popped while the node is not connected
     always goes through connect() (dial or the second flag read) before the broken check -/
@@ -358,6 +493,10 @@ theorem reply_progress_without_timer (s : St) (h : Inv s) (hi : s.inflight > 0) 
     s.spc = .rcHeld ∨ s.spc = .rcWant ∨ s.spc = .sending := by
   have ha := h.inflightAlive hi
   have hne := h.receiverExists.mp (h.aliveEstablished ha)
+  -- the flag is clear while the stream works, so nobody is blocked in the `cancelPendingMsgs` of `reconnect`
+  have hnb := h.aliveUnbroken ha
+  have h1' : s.spc ≠ .rcBlocked := fun hc => by have := (h.rcBlockedBroken (Or.inl hc)).1; simp [hnb] at this
+  have h4' : s.rpc ≠ .rcBlocked := fun hc => by have := (h.rcBlockedBroken (Or.inr hc)).1; simp [hnb] at this
   by_cases h1 : s.spc = .rcHeld
   · exact Or.inr (Or.inl h1)
   by_cases h2 : s.spc = .rcWant
@@ -370,9 +509,10 @@ theorem reply_progress_without_timer (s : St) (h : Inv s) (hi : s.inflight > 0) 
   | rcSleep => exact absurd hrpc hr
   | blockedSend => exact absurd hrpc hb
   | exited => exact absurd hrpc he
+  | rcBlocked => exact absurd hrpc h4'
   | cancelExit => have := h.cancelExitClosed hrpc; simp [hc] at this
   | top =>
-    have hw := writer_none_of_pcs s h h1 (by simp [hrpc])
+    have hw := writer_none_of_pcs s h h1 h1' (by simp [hrpc]) (by simp [hrpc])
     exact ⟨.rRLock, by simp, by simp [enabled, step, hrpc, hw, writerPending, h2]⟩
   | reading => exact ⟨.rRecvMsg, by simp, by simp [enabled, step, hrpc, ha, hi]⟩
   | deliver => exact ⟨.rDeliver, by simp, by simp [enabled, step, hrpc]⟩
@@ -381,7 +521,7 @@ theorem reply_progress_without_timer (s : St) (h : Inv s) (hi : s.inflight > 0) 
     · exact ⟨.rCancel, by simp, by simp [enabled, step, hrpc, hf]⟩
     · exact ⟨.rCancelBlock, by simp, by simp [enabled, step, hrpc, hf]⟩
   | rcWant =>
-    have hl := lockFree_of_pcs s h h3 (by simp [hrpc]) h1 (by simp [hrpc])
+    have hl := lockFree_of_pcs s h h3 (by simp [hrpc]) h1 h1' (by simp [hrpc]) (by simp [hrpc])
     exact ⟨.rRcLock, by simp, by simp [enabled, step, hrpc, hl]⟩
   | rcHeld =>
     refine ⟨.rRcDo, by simp, ?_⟩
@@ -389,20 +529,26 @@ theorem reply_progress_without_timer (s : St) (h : Inv s) (hi : s.inflight > 0) 
   | exitChk => exact ⟨.rExitChk, by simp, by simp [enabled, step, hrpc]⟩
 
 /-- **C12**: after Close, a state in which nothing can move any more has both goroutines gone —
-    unless it is one of the wedges -/
+    unless it is the back-pressure wedge (a goroutine blocked on a full reply channel, in any of its three locations) -/
 theorem closed_stuck_means_exited (s : St) (h : Reachable s) (hc : s.closed = true) (hs : Stuck s = true) :
     (s.spc = .exited ∧ (s.rpc = .exited ∨ s.rpc = .absent)) ∨ ShapeBackpressure s = true := by
   have hi := inv_reachable s h
-  rcases stuck_sender s hi hs with h1 | ⟨_, _, h1⟩ | ⟨_, h2⟩
-  · rcases stuck_receiver s hi hs with h' | h' | h' | ⟨_, h3, _⟩ | ⟨_, h'⟩
+  rcases stuck_sender s hi hs with h1 | ⟨_, _, h1⟩ | ⟨_, h2⟩ | h1 | h1
+  · rcases stuck_receiver s hi hs with h' | h' | h' | h' | ⟨_, h3, _⟩ | ⟨_, h'⟩ | h'
     · left; exact ⟨h1, Or.inr h'⟩
     · left; exact ⟨h1, Or.inl h'⟩
     · right; simp [ShapeBackpressure, h']
+    · right; simp [ShapeBackpressure, h']
     · have := (hi.aliveOpen h3).1; simp [hc] at this
     · simp [h1] at h'
+    · simp [h1] at h'
   · simp [hc] at h1
-  · rcases stuck_receiver s hi hs with h' | h' | h' | ⟨_, h3, _⟩ | ⟨h', _⟩ <;> try (simp [h2] at h'; done)
-    have := (hi.aliveOpen h3).1; simp [hc] at this
+  · rcases stuck_receiver s hi hs with h' | h' | h' | h' | ⟨_, h3, _⟩ | ⟨h', _⟩ | h' <;>
+      try (simp [h2] at h'; done)
+    · have := (hi.aliveOpen h3).1; simp [hc] at this
+    · right; simp [ShapeBackpressure, h']
+  · right; simp [ShapeBackpressure, h1]
+  · right; simp [ShapeBackpressure, h1]
 
 /-- after Close no stream is alive and no new request is accepted -/
 theorem closed_no_stream (s : St) (h : Reachable s) (hc : s.closed = true) : s.alive = false ∧ enabled s .eRequest = false := by
